@@ -8,7 +8,8 @@ import threading
 import itertools
 
 from .. import env
-from ..simdev.device import SimDevice, MODE_BOOTLOADER, MODE_SIGNER, MODE_UI_HEARTBEAT
+from ..simdev.device import (SimDevice, MODE_BOOTLOADER, MODE_SIGNER, MODE_UI_HEARTBEAT,
+                             ECHO_KINDS)
 
 ID = "C09"
 LEVEL = "exploration"
@@ -68,7 +69,7 @@ def reference(c):
     if c["platform"] == "sgx":
         # SGX reports bootloader iff locked
         mode = "boot" if c["mode"] == "boot" else ("signer" if c["mode"] == "signer" else c["mode"])
-    unlock_allowed = (onb and mode == "boot" and supported(c["ui"]) and c["echo"] and
+    unlock_allowed = (onb and mode == "boot" and supported(c["ui"]) and c["echo"] is True and
                       c["retries"] >= 2)
     if mode == "signer":
         ends_in_signer = True
@@ -119,16 +120,17 @@ def configs(spec):
                    "onboarded": rng.choice([True] * 8 + [False, "error"]),
                    "ui": ver(), "signer": ver(),
                    "retries": rng.choice(RETRIES + [2, 3, 3, rng.randrange(256)]),
-                   "echo": rng.random() < 0.85, "unlock": rng.random() < 0.8,
+                   "echo": True if rng.random() < 0.75 else rng.choice([False] + ECHO_KINDS),
+                   "unlock": rng.random() < 0.8,
                    "change": rng.random() < 0.2, "post": rng.choice(POST + ["signer"] * 6)}
         if spec["tier"] == "quick":
             return
     prod = itertools.product(PLATFORMS, MODES, ONB, VERS_SMALL, VERS_SMALL, RETRIES,
-                             (True, False), (True, False), (True, False), POST)
+                             [True] + ECHO_KINDS, (True, False), (True, False), POST)
     for j, (pl, mo, ob, ui, sg, rt, ec, ul, ch, po) in enumerate(prod):
         if j % n != sh:
             continue
-        if mo != "boot" and (ui != VERS_SMALL[0] or rt != 3 or not ec or not ul or ch or
+        if mo != "boot" and (ui != VERS_SMALL[0] or rt != 3 or ec is not True or not ul or ch or
                              po != "signer"):
             continue    # those knobs are unobservable unless the bootloader path runs
         yield {"platform": pl, "mode": mo, "onboarded": ob, "ui": ui, "signer": sg,
@@ -240,7 +242,7 @@ def run_config(acc, c, tmpdir, live=False):
             why = ("not-onboarded" if c["onboarded"] is not True else
                    "mode-" + c["mode"] if c["mode"] != "boot" else
                    "ui-version" if not supported(c["ui"]) else
-                   "echo" if not c["echo"] else "retries")
+                   "echo" if c["echo"] is not True else "retries")
             return bad("pin-or-unlock-sent-without-precondition:%s" % why)
         if n_unlock:
             acc.count("unlock_sent")
